@@ -367,3 +367,64 @@ func (c *lbCtx) storeExceedsField(st *ssa.Store, n *types.Named, f string) bool 
 	}
 	return false
 }
+
+// UpperCapIn reports a construct in the definition of v that bounds it from above by a constant: the
+// builtin min with a constant argument, or a phi that substitutes a constant on the branch where the
+// value exceeds it (`if v > k { v = k }`). Used where a quantity must be allowed to grow with its
+// inputs (the entry lifetime must grow with the longest rate period).
+func UpperCapIn(p *Prog, v ssa.Value, d int) (ssa.Value, bool) {
+	if d > 12 || v == nil {
+		return nil, false
+	}
+	switch x := v.(type) {
+	case *ssa.Convert:
+		return UpperCapIn(p, x.X, d+1)
+	case *ssa.ChangeType:
+		return UpperCapIn(p, x.X, d+1)
+	case *ssa.BinOp:
+		if c, ok := UpperCapIn(p, x.X, d+1); ok {
+			return c, true
+		}
+		return UpperCapIn(p, x.Y, d+1)
+	case *ssa.Call:
+		if b, ok := x.Common().Value.(*ssa.Builtin); ok {
+			if b.Name() == "min" {
+				for _, a := range x.Common().Args {
+					if _, isC := constInt(a); isC {
+						return x, true
+					}
+				}
+			}
+			for _, a := range x.Common().Args {
+				if c, ok := UpperCapIn(p, a, d+1); ok {
+					return c, true
+				}
+			}
+		}
+		return nil, false
+	case *ssa.Phi:
+		lc := &lbCtx{p: p, hyp: map[string]int64{}}
+		for i, e := range x.Edges {
+			k, isC := constInt(e)
+			if !isC {
+				if c, ok := UpperCapIn(p, e, d+1); ok {
+					return c, true
+				}
+				continue
+			}
+			// the constant edge: taken when some other incoming value exceeds the constant?
+			for j, o := range x.Edges {
+				if j == i {
+					continue
+				}
+				if _, oc := constInt(o); oc {
+					continue
+				}
+				if lo, ok := lc.refineByBranch(x, i, o); ok && lo >= k {
+					return x, true // on the constant's edge the other value is known to be >= k: it is being capped
+				}
+			}
+		}
+	}
+	return nil, false
+}
